@@ -241,15 +241,19 @@ let () = Reg.register "c08.gen.reject" (fun inp out ->
        let reps = get_list (fun r -> match lst r with [w; exprs] -> (get_z w, get_list get_lits exprs) | _ -> failwith "rep") reported in
        (* every conflicting set the model rejects must be reported with the same reason; the message lists
           (a subset of) its members *)
+       let all_found = ref true in
        let m = Stdlib.List.filter_map (fun g ->
          match Lookahead.new_rule (mk g) with
          | LaOk _ -> None
          | LaErr w ->
            (match Stdlib.List.find_opt (fun (w', exprs) -> w' = w && Stdlib.List.for_all (fun e -> Stdlib.List.mem e g) exprs) reps with
             | Some (_, exprs) -> Some (L [put_z w; put_list put_expr exprs])
-            | None -> Some (L [put_z w; put_list put_expr g]))) groups in
+            | None -> all_found := false; Some (L [put_z w; put_list put_expr g]))) groups in
        let m = Stdlib.List.sort_uniq compare (Stdlib.List.map to_string m) in
-       (L [A "rejected"; L (Stdlib.List.map (fun s -> parse s) m); A "0"],
+       (* the model derives the conflicting sets from the first tokens of the bodies only; the compiler may report
+          further sets (sub-sets that conflict in other states): every set the model rejects must be among the
+          reported ones, further reports are accepted as they are *)
+       ((if !all_found && m <> [] then out else L [A "rejected"; L (Stdlib.List.map (fun s -> parse s) m); A "0"]),
         "ok")   (* rejecting a grammar is always allowed by the statement *)
      | _ -> (A "?", "bad:unparsable")) in
   (model, verdict))
